@@ -314,3 +314,268 @@ Proof.
   unfold proj in Hp. injection Hp as _ _ H3 H4.
   rewrite (find_app_proj _ loc v), (find_trk_proj _ loc v), H3, H4, <- find_app_proj, <- find_trk_proj. auto.
 Qed.
+
+(* ------------------------------------------------------------------------------------------ *)
+(* 2. non-interference: what u is answered depends on u's projection and the chain-level components *)
+
+(* the chain-level components an API handler reads *)
+Record chain_eq (t1 t2 : tower) : Prop := {
+  ce_cfg : cfg t1 = cfg t2;
+  ce_gk_height : gk_height t1 = gk_height t2;
+  ce_w_height : w_height t1 = w_height t2;
+  ce_w_cache : w_cache t1 = w_cache t2;
+  ce_r_index : r_index t1 = r_index t2;
+  ce_car_height : car_height t1 = car_height t2;
+  ce_car_memo : car_memo t1 = car_memo t2
+}.
+
+Definition eqv (u : N) (t1 t2 : tower) : Prop := proj u t1 = proj u t2 /\ chain_eq t1 t2.
+
+Lemma eqv_fields u t1 t2 :
+  eqv u t1 t2 ->
+  aget (gk_users t1) u = aget (gk_users t2) u /\ aget (db_users t1) u = aget (db_users t2) u /\
+  filter (ofu u) (db_apps t1) = filter (ofu u) (db_apps t2) /\ filter (oft u) (db_trks t1) = filter (oft u) (db_trks t2).
+Proof. intros [Hp _]. unfold proj in Hp. injection Hp as H1 H2 H3 H4. auto. Qed.
+
+Lemma eqv_find_app u t1 t2 loc : eqv u t1 t2 -> find_app (db_apps t1) (loc, u) = find_app (db_apps t2) (loc, u).
+Proof. intros H. destruct (eqv_fields u t1 t2 H) as [_ [_ [H3 _]]]. rewrite (find_app_proj _ loc u), H3, <- find_app_proj. reflexivity. Qed.
+
+Lemma eqv_find_trk u t1 t2 loc : eqv u t1 t2 -> find_trk (db_trks t1) (loc, u) = find_trk (db_trks t2) (loc, u).
+Proof. intros H. destruct (eqv_fields u t1 t2 H) as [_ [_ [_ H4]]]. rewrite (find_trk_proj _ loc u), H4, <- find_trk_proj. reflexivity. Qed.
+
+(* two procedure results are related: same outcome (value or abort site), equivalent states *)
+Definition rel {A} (u : N) (r1 r2 : res A) : Prop :=
+  match r1, r2 with
+  | Ok a1 s1, Ok a2 s2 => a1 = a2 /\ eqv u s1 s2
+  | Abort x1 s1, Abort x2 s2 => x1 = x2 /\ eqv u s1 s2
+  | _, _ => False
+  end.
+
+Lemma rel_bind {A B} u (r1 r2 : res A) (f1 f2 : A -> tower -> res B) :
+  rel u r1 r2 -> (forall a s1 s2, eqv u s1 s2 -> rel u (f1 a s1) (f2 a s2)) -> rel u (bind r1 f1) (bind r2 f2).
+Proof.
+  destruct r1 as [a1 s1|x1 s1], r2 as [a2 s2|x2 s2]; cbn [rel bind]; try tauto.
+  intros [Ha He] H. subst a2. apply H. exact He.
+Qed.
+
+(* a state change that touches neither the tables nor the chain-level components *)
+Lemma eqv_tables u t1 t2 t1' t2' :
+  eqv u t1 t2 ->
+  gk_users t1' = gk_users t1 -> db_users t1' = db_users t1 -> db_apps t1' = db_apps t1 -> db_trks t1' = db_trks t1 ->
+  gk_users t2' = gk_users t2 -> db_users t2' = db_users t2 -> db_apps t2' = db_apps t2 -> db_trks t2' = db_trks t2 ->
+  chain_eq t1' t2' -> eqv u t1' t2'.
+Proof.
+  intros [Hp _] A1 A2 A3 A4 B1 B2 B3 B4 Hc. split; [|exact Hc].
+  unfold proj in *. rewrite A1, A2, A3, A4, B1, B2, B3, B4. exact Hp.
+Qed.
+
+Ltac chain_same Hc := destruct Hc as [C1 C2 C3 C4 C5 C6 C7]; constructor; assumption.
+
+Lemma eqv_fresh u t1 t2 : eqv u t1 t2 -> eqv u (fresh t1) (fresh t2).
+Proof. intros H. pose proof H as [_ Hc]. apply (eqv_tables u t1 t2); try reflexivity; [exact H|chain_same Hc]. Qed.
+
+Lemma eqv_set_user u t1 t2 ui : eqv u t1 t2 -> eqv u (p_set_user t1 u ui) (p_set_user t2 u ui).
+Proof.
+  intros H. destruct (eqv_fields u t1 t2 H) as [H1 [H2 [H3 H4]]]. destruct H as [_ Hc]. split; [|chain_same Hc].
+  unfold proj, p_set_user, db_update_user, gk_put. cbn [gk_users db_users db_apps db_trks set_db_users set_gk_users aget].
+  rewrite N.eqb_refl, !aget_map_update, N.eqb_refl, H2, H3, H4. reflexivity.
+Qed.
+
+Lemma eqv_new_user u t1 t2 ui : eqv u t1 t2 -> eqv u (p_new_user t1 u ui) (p_new_user t2 u ui).
+Proof.
+  intros H. destruct (eqv_fields u t1 t2 H) as [H1 [H2 [H3 H4]]]. destruct H as [_ Hc]. split; [|chain_same Hc].
+  unfold proj, p_new_user, gk_put. cbn [gk_users db_users db_apps db_trks set_db_users set_gk_users aget].
+  rewrite N.eqb_refl, !aget_app_single, H2, H3, H4. reflexivity.
+Qed.
+
+Lemma eqv_update_app u t1 t2 a : a_user a = u -> eqv u t1 t2 -> eqv u (p_update_app t1 a) (p_update_app t2 a).
+Proof.
+  intros Ha H. destruct (eqv_fields u t1 t2 H) as [H1 [H2 [H3 H4]]]. destruct H as [_ Hc]. split; [|chain_same Hc].
+  unfold proj, p_update_app. cbn [gk_users db_users db_apps db_trks set_db_apps].
+  assert (Hcomm : forall l, filter (ofu u) (map (fun x => if uuid_eqb (app_uuid x) (app_uuid a) then a else x) l)
+                            = map (fun x => if uuid_eqb (app_uuid x) (app_uuid a) then a else x) (filter (ofu u) l)).
+  { intros l. apply filter_map_comm. intros x. destruct (uuid_eqb (app_uuid x) (app_uuid a)) eqn:E; [|reflexivity].
+    apply uuid_eqb_eq in E. unfold app_uuid in E. inversion E. unfold ofu. congruence. }
+  rewrite !Hcomm, H1, H2, H3, H4. reflexivity.
+Qed.
+
+Lemma eqv_insert_app u t1 t2 a : eqv u t1 t2 -> eqv u (p_insert_app t1 a) (p_insert_app t2 a).
+Proof.
+  intros H. destruct (eqv_fields u t1 t2 H) as [H1 [H2 [H3 H4]]]. destruct H as [_ Hc]. split; [|chain_same Hc].
+  unfold proj, p_insert_app. cbn [gk_users db_users db_apps db_trks set_db_apps].
+  rewrite !filter_snoc, H1, H2, H3, H4. reflexivity.
+Qed.
+
+Lemma eqv_insert_trk u t1 t2 k : eqv u t1 t2 -> eqv u (p_insert_trk t1 k) (p_insert_trk t2 k).
+Proof.
+  intros H. destruct (eqv_fields u t1 t2 H) as [H1 [H2 [H3 H4]]]. destruct H as [_ Hc]. split; [|chain_same Hc].
+  unfold proj, p_insert_trk. cbn [gk_users db_users db_apps db_trks set_db_trks].
+  rewrite !filter_snoc, H1, H2, H3, H4. reflexivity.
+Qed.
+
+Lemma eqv_delete u t1 t2 us : eqv u t1 t2 -> eqv u (db_delete_apps t1 us) (db_delete_apps t2 us).
+Proof.
+  intros H. destruct (eqv_fields u t1 t2 H) as [H1 [H2 [H3 H4]]]. destruct H as [_ Hc]. split; [|chain_same Hc].
+  unfold proj, db_delete_apps. cbn [gk_users db_users db_apps db_trks set_db_apps set_db_trks].
+  rewrite (filter_comm (ofu u)), (filter_comm (oft u)), (filter_comm (ofu u) _ (db_apps t2)), (filter_comm (oft u) _ (db_trks t2)).
+  rewrite H1, H2, H3, H4. reflexivity.
+Qed.
+
+Lemma eqv_log u t1 t2 e1 e2 : eqv u t1 t2 -> eqv u (log_rpc t1 e1) (log_rpc t2 e2).
+Proof. intros H. pose proof H as [_ Hc]. apply (eqv_tables u t1 t2); try reflexivity; [exact H|chain_same Hc]. Qed.
+
+Lemma eqv_send u sc t1 t2 x :
+  eqv u t1 t2 ->
+  fst (send_transaction sc t1 x) = fst (send_transaction sc t2 x) /\
+  eqv u (snd (send_transaction sc t1 x)) (snd (send_transaction sc t2 x)).
+Proof.
+  intros H. pose proof H as [_ Hc]. unfold send_transaction. rewrite (ce_car_memo _ _ Hc).
+  destruct (aget (car_memo t2) x) as [r|]; cbn [fst snd]; [split; [reflexivity|exact H]|].
+  assert (Hs : send_status t1 (snd (script_get sc x)) = send_status t2 (snd (script_get sc x))).
+  { unfold send_status. rewrite (ce_car_height _ _ Hc). reflexivity. }
+  split; [exact Hs|]. apply (eqv_tables u t1 t2); try reflexivity; [exact H|].
+  destruct Hc as [C1 C2 C3 C4 C5 C6 C7]. constructor; cbn [cfg gk_height w_height w_cache r_index car_height car_memo set_car_memo log_rpc set_rpc_log]; try assumption.
+  rewrite Hs, C7. reflexivity.
+Qed.
+
+Lemma rel_add_tracker u t1 t2 loc d p s :
+  eqv u t1 t2 -> eqv u (r_add_tracker t1 (loc, u) d p s) (r_add_tracker t2 (loc, u) d p s).
+Proof.
+  intros H. unfold r_add_tracker. rewrite (eqv_find_trk u t1 t2 loc H), (eqv_find_app u t1 t2 loc H).
+  destruct s as [h|h| |c]; try exact H;
+    destruct (find_trk (db_trks t2) (loc, u)); try exact H;
+    destruct (find_app (db_apps t2) (loc, u)); try exact H; apply eqv_insert_trk; exact H.
+Qed.
+
+Lemma rel_handle_breach u sc t1 t2 loc d p :
+  eqv u t1 t2 -> rel u (r_handle_breach sc t1 (loc, u) d p) (r_handle_breach sc t2 (loc, u) d p).
+Proof.
+  intros H. pose proof H as [_ Hc]. unfold r_handle_breach. apply rel_bind.
+  - rewrite (ce_r_index _ _ Hc). destruct (ti_get (r_index t2) p) as [bh|].
+    + destruct (ti_get_height (r_index t2) bh); cbn [rel]; split; try reflexivity; exact H.
+    + unfold in_mempool.
+      match goal with |- context [if ?c then _ else _] => destruct c end.
+      * cbn [rel]. split; [|apply eqv_log; exact H]. cbn [car_height log_rpc set_rpc_log]. rewrite (ce_car_height _ _ Hc). reflexivity.
+      * set (a1 := log_rpc t1 _). set (a2 := log_rpc t2 _).
+        destruct (eqv_send u sc a1 a2 p (eqv_log u t1 t2 _ _ H)) as [Hs He].
+        destruct (send_transaction sc a1 p) as [s1 ta]. destruct (send_transaction sc a2 p) as [s2 tb].
+        cbn [fst snd rel] in *. split; assumption.
+  - intros s s1 s2 He. cbn [rel]. split; [reflexivity|].
+    destruct (status_accepted s); [apply rel_add_tracker|]; exact He.
+Qed.
+
+Lemma rel_delete u t1 t2 us refund_off :
+  refund_off = false -> eqv u t1 t2 -> rel u (gk_delete_appointments t1 us refund_off) (gk_delete_appointments t2 us refund_off).
+Proof. intros -> H. unfold gk_delete_appointments. cbn [rel]. split; [reflexivity|apply eqv_delete; exact H]. Qed.
+
+Lemma rel_store_appointment u t1 t2 a :
+  a_user a = u -> eqv u t1 t2 -> rel u (w_store_appointment t1 a) (w_store_appointment t2 a).
+Proof.
+  intros Ha H. unfold w_store_appointment.
+  assert (Hu : app_uuid a = (a_loc a, u)) by (unfold app_uuid; rewrite Ha; reflexivity).
+  rewrite Hu, (eqv_find_app u t1 t2 (a_loc a) H), <- Hu.
+  destruct (find_app (db_apps t2) (app_uuid a)); [cbn [rel]; split; [reflexivity|apply eqv_update_app; assumption]|].
+  destruct (eqv_fields u t1 t2 H) as [_ [H2 _]]. unfold amem. rewrite Ha, H2.
+  destruct (aget (db_users t2) u); cbn [rel]; split; try reflexivity; [apply eqv_insert_app|]; exact H.
+Qed.
+
+Lemma rel_store_triggered u sc t1 t2 a d :
+  a_user a = u -> eqv u t1 t2 -> rel u (w_store_triggered sc t1 a d) (w_store_triggered sc t2 a d).
+Proof.
+  intros Ha H. unfold w_store_triggered.
+  assert (Hu : app_uuid a = (a_loc a, u)) by (unfold app_uuid; rewrite Ha; reflexivity).
+  destruct (decrypt (a_blob a) d) as [p|].
+  - apply rel_bind; [apply rel_store_appointment; assumption|]. intros _ s1 s2 He.
+    apply rel_bind; [rewrite Hu; apply rel_handle_breach; exact He|]. intros s s1' s2' He'.
+    destruct (status_rejected s); [apply rel_delete; [reflexivity|exact He']|cbn [rel]; split; [reflexivity|exact He']].
+  - rewrite Hu, (eqv_find_app u t1 t2 (a_loc a) H).
+    destruct (find_app (db_apps t2) (a_loc a, u)); [apply rel_delete; [reflexivity|exact H]|cbn [rel]; split; [reflexivity|exact H]].
+Qed.
+
+Lemma rel_charge u t1 t2 loc blen :
+  eqv u t1 t2 -> rel u (gk_add_update_appointment t1 u (loc, u) blen) (gk_add_update_appointment t2 u (loc, u) blen).
+Proof.
+  intros H. unfold gk_add_update_appointment, gk_get. destruct (eqv_fields u t1 t2 H) as [H1 _].
+  rewrite H1, (eqv_find_app u t1 t2 loc H).
+  destruct (aget (gk_users t2) u) as [ui|]; [|cbn [rel]; split; [reflexivity|exact H]].
+  match goal with |- context [if ?c then _ else _] => destruct c end; cbn [rel]; split; try reflexivity; [apply eqv_set_user|]; exact H.
+Qed.
+
+Lemma rel_add_appointment u sc t1 t2 loc b delay sig :
+  eqv u t1 t2 ->
+  rel u (w_add_appointment sc t1 (Some u) loc b delay sig) (w_add_appointment sc t2 (Some u) loc b delay sig).
+Proof.
+  intros H. pose proof H as [_ Hc]. destruct (eqv_fields u t1 t2 H) as [H1 _].
+  unfold w_add_appointment, authenticate, amem. rewrite H1.
+  destruct (aget (gk_users t2) u) as [ui|] eqn:Eg; cbv beta iota; [|cbn [rel]; split; [reflexivity|exact H]].
+  unfold gk_get. rewrite H1, Eg, (ce_gk_height _ _ Hc).
+  destruct (N.leb (u_expiry ui) (gk_height t2)); [cbn [rel]; split; [reflexivity|exact H]|].
+  rewrite (eqv_find_trk u t1 t2 loc H).
+  destruct (find_trk (db_trks t2) (loc, u)); [cbn [rel]; split; [reflexivity|exact H]|].
+  apply rel_bind; [apply rel_charge; exact H|]. intros charged s1 s2 He.
+  destruct charged as [av|]; [|cbn [rel]; split; [reflexivity|exact He]].
+  rewrite (ce_w_height _ _ Hc). pose proof He as [_ Hc']. rewrite (ce_w_cache _ _ Hc').
+  apply rel_bind; [|intros _ s1' s2' He'; cbn [rel]; split; [reflexivity|exact He']].
+  destruct (ti_get (w_cache s2) loc) as [d|]; [apply rel_store_triggered|apply rel_store_appointment]; try reflexivity; exact He.
+Qed.
+
+Lemma rel_register u t1 t2 : eqv u t1 t2 -> rel u (gk_add_update_user t1 u) (gk_add_update_user t2 u).
+Proof.
+  intros H. pose proof H as [_ Hc]. destruct (eqv_fields u t1 t2 H) as [H1 [H2 _]].
+  unfold gk_add_update_user, gk_get, amem. rewrite H1, H2, (ce_cfg _ _ Hc), (ce_gk_height _ _ Hc).
+  destruct (aget (gk_users t2) u) as [ui|].
+  - destruct (u32_add (u_slots ui) (c_slots (cfg t2))); cbn [rel]; split; try reflexivity; [apply eqv_set_user|]; exact H.
+  - destruct (u32_add (gk_height t2) (c_duration (cfg t2))); [|cbn [rel]; split; [reflexivity|exact H]].
+    destruct (aget (db_users t2) u); cbn [rel]; split; try reflexivity; [|apply eqv_new_user]; exact H.
+Qed.
+
+Lemma rel_get u t1 t2 loc : eqv u t1 t2 -> rel u (w_get_appointment t1 (Some u) loc) (w_get_appointment t2 (Some u) loc).
+Proof.
+  intros H. pose proof H as [_ Hc]. destruct (eqv_fields u t1 t2 H) as [H1 _].
+  unfold w_get_appointment, authenticate, amem. rewrite H1.
+  destruct (aget (gk_users t2) u) as [ui|] eqn:Eg; cbv beta iota; [|cbn [rel]; split; [reflexivity|exact H]].
+  unfold gk_get. rewrite H1, Eg, (ce_gk_height _ _ Hc).
+  destruct (N.leb (u_expiry ui) (gk_height t2)); [cbn [rel]; split; [reflexivity|exact H]|].
+  rewrite (eqv_find_trk u t1 t2 loc H), (eqv_find_app u t1 t2 loc H).
+  destruct (find_trk (db_trks t2) (loc, u)), (find_app (db_apps t2) (loc, u)); cbn [rel]; split; try reflexivity; exact H.
+Qed.
+
+Lemma rel_getsub u t1 t2 : eqv u t1 t2 -> rel u (w_get_subscription_info t1 (Some u)) (w_get_subscription_info t2 (Some u)).
+Proof.
+  intros H. pose proof H as [_ Hc]. destruct (eqv_fields u t1 t2 H) as [H1 [_ [H3 _]]].
+  unfold w_get_subscription_info, authenticate, amem. rewrite H1.
+  destruct (aget (gk_users t2) u) as [ui|] eqn:Eg; cbv beta iota; [|cbn [rel]; split; [reflexivity|exact H]].
+  unfold gk_get. rewrite H1, Eg, (ce_gk_height _ _ Hc).
+  destruct (N.leb (u_expiry ui) (gk_height t2)); [cbn [rel]; split; [reflexivity|exact H]|].
+  change (fun a : app => N.eqb (a_user a) u) with (ofu u). rewrite H3. cbn [rel]. split; [reflexivity|exact H].
+Qed.
+
+Lemma rel_wrap {A} u (f : A -> out) (r1 r2 : res A) :
+  rel u r1 r2 -> snd (wrap f r1) = snd (wrap f r2) /\ eqv u (fst (wrap f r1)) (fst (wrap f r2)).
+Proof.
+  destruct r1 as [a1 s1|x1 s1], r2 as [a2 s2|x2 s2]; cbn [rel wrap fst snd]; try tauto; intros [Ha He]; subst; auto.
+Qed.
+
+(* C06 non-interference.  Two towers that agree on u's projection and on the chain-level components give
+   the same output (reply or abort site) to any API operation of u under the same node answers, and agree
+   on u's projection and the chain-level components afterwards.  Nothing of any other user enters. *)
+Theorem noninterference le t1 t2 o sc u :
+  is_api o = true -> actor o = Some u -> eqv u t1 t2 ->
+  snd (step le t1 o sc) = snd (step le t2 o sc) /\ eqv u (fst (step le t1 o sc)) (fst (step le t2 o sc)).
+Proof.
+  intros Hapi Ha H. apply eqv_fresh in H.
+  destruct o as [u0|signer loc b delay sig|signer loc|signer|hash txs|]; try discriminate; cbn [actor] in Ha; cbn [step];
+    change (set_rpc_log t1 []) with (fresh t1); change (set_rpc_log t2 []) with (fresh t2); apply rel_wrap.
+  - inversion Ha. subst u0. apply rel_register. exact H.
+  - subst signer. apply rel_add_appointment. exact H.
+  - subst signer. apply rel_get. exact H.
+  - subst signer. apply rel_getsub. exact H.
+Qed.
+
+(* a request nobody signed (or that does not verify) is answered the same by every tower *)
+Theorem unauthenticated_reply le t1 t2 o sc :
+  is_api o = true -> actor o = None -> snd (step le t1 o sc) = snd (step le t2 o sc).
+Proof.
+  intros Hapi Ha. destruct o as [u0|signer loc b delay sig|signer loc|signer|hash txs|]; try discriminate;
+    cbn [actor] in Ha; subst signer; reflexivity.
+Qed.
